@@ -181,6 +181,12 @@ def run_ascii(ctx, pairs):
         for s in (a, "%" + a + a, "%4" + a, "%" + a + "1", "%E2%82%" + a + "C", "a" + a + "b", a + "41", "x%" + a + a + "y"):
             for p in pairs:
                 compare(ctx, p, s, "alias")
+    from ..gen import ascii_confusables
+
+    for a in ascii_confusables():
+        for s in (a, "%" + a + a, "%4" + a, "%" + a + "1", "a" + a + " "):
+            for p in pairs:
+                compare(ctx, p, s, "confusable")
     ctx.sample({"config": "<all>", "input": "%4\udc801"})
     ctx.notes["ascii_strings"] = n
     # non-str arguments and str subclasses: same value or same exception type on both backends
